@@ -4,6 +4,7 @@ import GeffModel.Lineage
 import GeffModel.Tracklet
 import GeffModel.EllipsoidProto
 import GeffModel.NpPrimProto
+import GeffModel.ByteOrder
 open Lean Geff Geff.Proto Geff.Validate
 
 def pairsJson (l : List (Int × Int)) : Json :=
@@ -87,6 +88,25 @@ def handle (j : Json) : Except String Json := do
       let es := edges.map fun e => (Tracklet.toInt64 e.1, Tracklet.toInt64 e.2)
       return Json.mkObj [("valid", Json.bool (Lineage.validateLineages nl es)),
                          ("bad", Json.arr ((Lineage.lineageErrors nl es).map intJson).toArray)]
+  | "read_bytes" =>
+    -- byte order per stored id array (GeffModel/ByteOrder.lean): the raw items read back from the store
+    -- under test, each array decoded by ITS OWN recorded byte order, then the graph stage of validate_data
+    let getEndian (k : String) : Except String Geff.ByteOrder.Endian := do
+      match (← (← j.getObjVal? k).getStr?) with
+      | "little" => pure .little
+      | "big" => pure .big
+      | s => throw s!"unknown byte order {s}"
+    let getItems (k : String) : Except String (List (List Nat)) := do
+      (← (← j.getObjVal? k).getArr?).toList.mapM fun it => do
+        (← it.getArr?).toList.mapM fun b => b.getNat?
+    let signed ← (← j.getObjVal? "signed").getBool?
+    let directed ← (← j.getObjVal? "directed").getBool?
+    let nodes : Geff.ByteOrder.IdArray := { endian := ← getEndian "node_endian", signed := signed, items := ← getItems "node_items" }
+    let edges : Geff.ByteOrder.IdArray := { endian := ← getEndian "edge_endian", signed := signed, items := ← getItems "edge_items" }
+    return Json.mkObj [("ids", Json.arr (nodes.values.map intJson).toArray),
+                       ("edges", pairsJson (Geff.ByteOrder.pairs edges.values)),
+                       ("stage", outcomeJson (Geff.ByteOrder.readGraphStage directed nodes edges)),
+                       ("stage_view", outcomeJson (Geff.ByteOrder.readGraphStageView directed nodes edges))]
   | "dispatch" =>
     let cfg ← getBoolList (← j.getObjVal? "config")   -- graph, sphere, ellipsoid, lineage, tracklet
     let dec ← getBoolList (← j.getObjVal? "decl")     -- sphere, ellipsoid, trackProps set, "tracklet" key, "lineage" key
